@@ -24,7 +24,7 @@ def _with_conc(p, quick, thorough):
         "through republishing callbacks (`srvsubrepub`: a nested Server.Publish from inside a callback)"]
 
 
-for _pid in ('C01', 'C02'):
+for _pid in ('C01', 'C02', 'C08'):
     if _pid in PROPS:
         _with_conc(PROPS[_pid], 12, 80)
 
